@@ -243,11 +243,11 @@ macro_rules! impl_node {
                             ex.observe(view.as_ptr() as usize, view.len(), &mut view.iter().map(|c| c.to_words()));
                         }
                         Op::Write { idx, words } => {
-                            let n = g.len();
+                            let n = { let view: &[$t] = &g; view.len() };
                             if n > 0 {
                                 let k = *idx as usize % n;
                                 // write through DerefMut, element assignment
-                                g[k] = <$t as Elem>::from_words(*words);
+                                { let view: &mut [$t] = &mut g; view[k] = <$t as Elem>::from_words(*words); }
                                 ex.model_write(k, <$t as Elem>::from_words(*words).to_words());
                             }
                             let view: &[$t] = &g;
@@ -257,7 +257,9 @@ macro_rules! impl_node {
                             // an operator applied through the guard to every element
                             let view: &mut [$t] = &mut g;
                             for (k, c) in view.iter_mut().enumerate() {
-                                let w = super::mutate_words(c.to_words(), ex.layout, *scale_bits, *add_bits);
+                                // computed from what the MODEL holds, not from what the buffer shows: a value the
+                                // guard got wrong must not be laundered into the model by the next mutation
+                                let w = super::mutate_words(ex.model_word(k), ex.layout, *scale_bits, *add_bits);
                                 *c = <$t as Elem>::from_words(w);
                                 ex.model_write(k, c.to_words());
                             }
@@ -379,7 +381,7 @@ macro_rules! impl_single {
                             ex.observe(view as *const $t as usize, 1, &mut core::iter::once(view.to_words()));
                         }
                         Op::Mutate { scale_bits, add_bits } => {
-                            let w = super::mutate_words(g.to_words(), ex.layout, *scale_bits, *add_bits);
+                            let w = super::mutate_words(ex.model_word(0), ex.layout, *scale_bits, *add_bits);
                             *g = <$t as Elem>::from_words(w);
                             ex.model_write(0, g.to_words());
                             let view: &$t = &g;
@@ -391,9 +393,11 @@ macro_rules! impl_single {
                             dispatch!(*ty, [$($c),+], |C| {
                                 if *unclamped {
                                     let ng = g.then_into_color_unclamped_mut::<C>();
+                                    { let view: &C = &ng; ex.observe(view as *const C as usize, 1, &mut core::iter::once(view.to_words())); }
                                     return <P<C, $u, Unclamped> as SingleNode>::run(ng, ex, rest, end);
                                 } else {
                                     let ng = g.then_into_color_mut::<C>();
+                                    { let view: &C = &ng; ex.observe(view as *const C as usize, 1, &mut core::iter::once(view.to_words())); }
                                     return <P<C, $u, Clamped> as SingleNode>::run(ng, ex, rest, end);
                                 }
                             });
@@ -413,12 +417,14 @@ macro_rules! impl_single {
                                         Entry::From => <C as FromColorUnclampedMut<$t>>::from_color_unclamped_mut(outer),
                                         Entry::Into => IntoColorUnclampedMut::<C>::into_color_unclamped_mut(outer),
                                     };
+                                    { let view: &C = &inner; ex.observe(view as *const C as usize, 1, &mut core::iter::once(view.to_words())); }
                                     <P<C, $t, Unclamped> as SingleNode>::run(inner, ex, nb, *ne);
                                 } else {
                                     let inner = match entry {
                                         Entry::From => <C as FromColorMut<$t>>::from_color_mut(outer),
                                         Entry::Into => IntoColorMut::<C>::into_color_mut(outer),
                                     };
+                                    { let view: &C = &inner; ex.observe(view as *const C as usize, 1, &mut core::iter::once(view.to_words())); }
                                     <P<C, $t, Clamped> as SingleNode>::run(inner, ex, nb, *ne);
                                 }
                             });
@@ -581,7 +587,7 @@ macro_rules! buf_enum {
         }
 
         /// Open the root guard of an episode on the buffer and interpret the body.
-        pub fn $open(buf: &mut $name, ex: &mut Exec<'_, '_>, ty: u8, unclamped: bool, entry: Entry, body: &[Op], end: End) {
+        pub fn $open(buf: &mut $name, range: (usize, usize), ex: &mut Exec<'_, '_>, ty: u8, unclamped: bool, entry: Entry, body: &[Op], end: End) {
             match buf {
                 $(
                     $name::$t(v) => {
@@ -589,16 +595,15 @@ macro_rules! buf_enum {
                         dispatch!(ty, $all, |C| {
                             if unclamped {
                                 let g = match entry {
-                                    Entry::From => <[C] as FromColorUnclampedMut<[U]>>::from_color_unclamped_mut(&mut v[..]),
-                                    // through Vec's deref to a slice
-                                    Entry::Into => IntoColorUnclampedMut::<[C]>::into_color_unclamped_mut(&mut **v),
+                                    Entry::From => <[C] as FromColorUnclampedMut<[U]>>::from_color_unclamped_mut(&mut v[range.0..range.1]),
+                                    Entry::Into => IntoColorUnclampedMut::<[C]>::into_color_unclamped_mut(&mut v[range.0..range.1]),
                                 };
                                 ex.observe_guard::<C>(&g);
                                 <P<C, U, Unclamped> as Node>::run(g, ex, body, end);
                             } else {
                                 let g = match entry {
-                                    Entry::From => <[C] as FromColorMut<[U]>>::from_color_mut(&mut v[..]),
-                                    Entry::Into => IntoColorMut::<[C]>::into_color_mut(&mut **v),
+                                    Entry::From => <[C] as FromColorMut<[U]>>::from_color_mut(&mut v[range.0..range.1]),
+                                    Entry::Into => IntoColorMut::<[C]>::into_color_mut(&mut v[range.0..range.1]),
                                 };
                                 ex.observe_guard::<C>(&g);
                                 <P<C, U, Clamped> as Node>::run(g, ex, body, end);
@@ -709,12 +714,14 @@ macro_rules! buf_enum {
                                 Entry::From => <C as FromColorUnclampedMut<U>>::from_color_unclamped_mut(slot),
                                 Entry::Into => IntoColorUnclampedMut::<C>::into_color_unclamped_mut(slot),
                             };
+                            { let view: &C = &g; $ex.observe(view as *const C as usize, 1, &mut core::iter::once(view.to_words())); }
                             <P<C, U, Unclamped> as SingleNode>::run(g, $ex, $body, $end);
                         } else {
                             let g = match $entry {
                                 Entry::From => <C as FromColorMut<U>>::from_color_mut(slot),
                                 Entry::Into => IntoColorMut::<C>::into_color_mut(slot),
                             };
+                            { let view: &C = &g; $ex.observe(view as *const C as usize, 1, &mut core::iter::once(view.to_words())); }
                             <P<C, U, Clamped> as SingleNode>::run(g, $ex, $body, $end);
                         }
                     });
